@@ -58,6 +58,9 @@ func runImpl(cs Case) (tr trace, v *verdict) {
 		if p {
 			return tr, &verdict{kind: "judge", class: "c18.panic", what: fmt.Sprintf("op %d (%s) panicked: %s", k, op.Op, msg)}
 		}
+		if err == limiter.VerifC18ErrSlow {
+			return tr, &verdict{kind: "slow", class: "c18.slow"}
+		}
 		if err != nil {
 			cl := "c18.op-failed"
 			kind := "diff"
@@ -104,6 +107,13 @@ func check(c *rig.Ctx, cs Case) (*verdict, trace) {
 		return &verdict{kind: "diff", class: "c18.bad-case", what: "shard count must be positive"}, trace{}
 	}
 	tr, v := runImpl(cs)
+	for try := 0; v != nil && v.kind == "slow" && try < 4; try++ {
+		tr, v = runImpl(cs) // the machine stalled during a pass: start over
+	}
+	if v != nil && v.kind == "slow" {
+		c.Count("skipped:machine-too-slow-for-the-scripted-clock")
+		return nil, tr
+	}
 	if v != nil {
 		return v, tr
 	}
